@@ -44,12 +44,29 @@ def run_server(asyncio_, plan, classns):
             def f(*a):
                 return body(*a)
         return f
+    def disconnect_handler(ns):
+        mode = classns if isinstance(classns, str) else None
+        def body(sid, reason):
+            tr.append(('disconnect' + ns, sid, reason))
+            if mode == 'raising-disconnect':
+                raise Boom('disconnect handler')
+        if asyncio_:
+            async def f(sid, reason):
+                body(sid, reason)
+                if mode == 'emitting-disconnect':
+                    await w.s.emit('left', sid, namespace=ns)
+        else:
+            def f(sid, reason):
+                body(sid, reason)
+                if mode == 'emitting-disconnect':
+                    w.s.emit('left', sid, namespace=ns)
+        return f
     for ns in ('/', '/a'):
         w.s.on('connect', handler('connect' + ns), namespace=ns)
-        w.s.on('disconnect', handler('disconnect' + ns), namespace=ns)
+        w.s.on('disconnect', disconnect_handler(ns), namespace=ns)
         w.s.on('ev', handler('ev' + ns, ('r', 1)), namespace=ns)
     w.s.on('connect', handler('connect/r', refuse=True), namespace='/r')
-    if classns:
+    if classns is True:
         base = socketio.AsyncNamespace if asyncio_ else socketio.Namespace
         if asyncio_:
             async def on_ev(self, sid, *a):
@@ -144,7 +161,7 @@ def run_server(asyncio_, plan, classns):
         elif name == 'loss e1':
             w.lose('e1', 'transport close')
         elif name == 'event on class namespace':
-            if classns:
+            if classns is True:
                 w.send('e0', w.P(packet.CONNECT, namespace='/c'))
                 w.send('e0', w.P(packet.EVENT, data=['ev', 2], namespace='/c', id=9))
         elif name == 'call':
@@ -483,7 +500,11 @@ def h_simple(t, part):
 
 def server_parts(tier):
     n = 3 if tier == 'quick' else 4
-    return [{'n': n, 'classns': cn, 'first': f} for cn in (False, True) for f in range(len(S_OPS))]
+    out = [{'n': n, 'classns': cn, 'first': f} for cn in (False, True) for f in range(len(S_OPS))]
+    # disconnect handlers that raise, or that emit to everybody (the leaving client included)
+    ends = [S_OPS.index(x) for x in ('client disconnect', 'server disconnect', 'loss e1', 'emit room', 'enter')]
+    out += [{'n': n, 'classns': mode, 'first': f} for mode in ('raising-disconnect', 'emitting-disconnect') for f in ends]
+    return out
 
 
 def client_parts(tier):
